@@ -648,10 +648,7 @@ class Angular(object):
         """
         Difference of two objects (might have different orders).
         """
-        a, b, = sorted([self.c, other.c], key=len)
-        c = b.copy()  # copy the longer array
-        c[:len(a)] -= a  # subtract the shorter array from the relevant part
-        return Angular(c)
+        return self + (-1.0) * other
 
     def __mul__(self, obj):
         """
